@@ -23,6 +23,11 @@ CHECKS['C03'] = dict(engine='nnxworld', design='DESIGN.md section 6, C03',
     note='No scheduler or I/O exists behind this property; simulation contributes the history dimension (aliasing created by earlier edits), gc instants and identity checks. Plain list/dict/tuple containers are never aliased (NNX treats them as value-like pytrees); pop is not generated for shared Variables or Variables directly inside containers.',
     technique='deterministic simulation: seeded aliasing/edit histories vs pure-Python graph mirror (canonical form + identity)')
 
+CHECKS['C01'] = dict(engine='linenworld', design='DESIGN.md section 6, C01',
+    text='Seeded call histories on long-lived Linen module instances, variable dicts and RNG dicts (init, init_with_output, apply under every form of mutable filter, bind/unbind, functional core), with injected faults: an exception raised at callback event e inside a module body (half-written variables, pushed scopes, deep module stack), an unguarded write to a collection outside the filter, gc events. Oracles: deep snapshot (structure, container identities, bytes) of every world object before == after each call whether it returned or raised; memo model of repeated calls across the whole history (also after aborted calls); returned-collections rule computed by the harness\'s own filter evaluator; ModifyScopeVariableError rule; observation features leave the primary output byte-identical. Violations that depend on state leaked by earlier histories of the same process are confirmed in a fresh interpreter with the preceding runs as prelude.',
+    note='Module bodies are interpreters over generated program specs running inside real nn.Module subclasses. Thread isolation is not asserted. Fault injection is at callback boundaries only.',
+    technique='deterministic simulation: seeded call histories with exception injection at callback events vs snapshot / memo / filter models')
+
 NA = {
   'C02': 'variable tree mirrors module tree: relation between stateless init/apply/lazy_init/bind results on the same arguments; ' + PURE,
   'C06': 'lifted scan/vmap = loop/stack: configuration-space equivalence of a pure function; ' + PURE,
@@ -38,15 +43,17 @@ NA = {
 
 # claimed in DESIGN.md, check not built yet (moved to CHECKS as each engine lands)
 _P = 'planned as a claimed check in DESIGN.md section 6 but its engine is not built yet in this commit; not claimed until it runs'
-PENDING = {p: _P for p in ['C01', 'C04', 'C05', 'C09', 'C17', 'C18']}
+PENDING = {p: _P for p in ['C04', 'C05', 'C09', 'C17', 'C18']}
 
 ENGINES = [
-  dict(name='kernel', path='sim/kernel.py', serves_properties=['C03', 'C11', 'C15', 'C20'], kind_free_text='seed -> JSON plan -> event-log digest; worker processes; ddmin shrinker; replay; evidence'),
+  dict(name='kernel', path='sim/kernel.py', serves_properties=['C01', 'C03', 'C11', 'C15', 'C20'], kind_free_text='seed -> JSON plan -> event-log digest; worker processes; ddmin shrinker; replay; evidence'),
   dict(name='sched', path='sim/sched.py', serves_properties=['C11', 'C20'], kind_free_text='baton-passing deterministic thread scheduler; stand-ins for threading and concurrent.futures.thread'),
   dict(name='disk', path='sim/disk.py', serves_properties=['C11'], kind_free_text='in-memory disk with crash / torn-write / I/O-error injection; stand-ins for os, shutil, open, glob and tensorflow.io.gfile'),
   dict(name='fsworld', path='sim/props/c11.py', serves_properties=['C11'], kind_free_text='checkpoint directory histories with crashes, restarts, retries, sweeps and async saves against a retention-policy model'),
   dict(name='valueworld', path='sim/props/c15.py', serves_properties=['C15'], kind_free_text='FrozenDict / struct dataclass call histories with foreign mutations and jit retrace histories'),
   dict(name='nnxworld', path='sim/nnxworld.py', serves_properties=['C03'], kind_free_text='heap of NNX object graphs + pure-Python mirror, canonical form, filters, build ops'),
+  dict(name='programs', path='sim/programs.py', serves_properties=['C01'], kind_free_text='Linen program specs compiled to real nn.Module classes; callback-event fault controller; key recorder'),
+  dict(name='linenworld', path='sim/props/c01.py', serves_properties=['C01'], kind_free_text='Linen call histories with fault injection against snapshot/memo/filter models'),
   dict(name='pipeworld', path='sim/props/c20.py', serves_properties=['C20'], kind_free_text='source -> PrefetchIterator / prefetch_to_device -> consumer under the thread scheduler with source fault injection'),
 ]
 
